@@ -83,6 +83,13 @@ SPECS = [
     dict(name="m3-h8-interrupted", kind="murmur3", hs=8, nd=2, np=1, nfiles=4, interrupted=True),
     dict(name="sp-h16-interrupted", kind="spooky2", hs=16, nd=3, np=2, nfiles=4, interrupted=True),
     dict(name="sp-h4-interrupted", kind="spooky2", hs=4, nd=2, np=2, nfiles=5, interrupted=True),
+    # added later with --add (same reference commit): a split layout with an EMPTY file between two used ones (the disk of that
+    # file had no room for a single block), the first content format (SNAPCNT1 with 'm' and 'n' records, transcoded from what the
+    # reference wrote and accepted by it), and unfinished syncs whose repair by the reference is recorded (fix_outcomes)
+    dict(name="m3-h16-gapsplit", kind="murmur3", hs=16, nd=2, np=1, splits=[4], limit=668, files="tiny", gap=True),
+    dict(name="m3-h16-np1-interrupted-fix", kind="murmur3", hs=16, nd=3, np=1, nfiles=4, interrupted=True, outcomes=True),
+    dict(name="m3-h16-np1-legacy-interrupted", kind="murmur3", hs=16, nd=3, np=1, nfiles=4, interrupted=True, outcomes=True, legacy=True),
+    dict(name="sp-h16-np2-legacy", kind="spooky2", hs=16, nd=3, np=2, nfiles=3, legacy=True),
 ]
 
 
@@ -96,6 +103,8 @@ def write_tree(a, ai, spec):
     for d in range(nd):
         if spec.get("files") == "rich":
             fl = rich_files(ai, d)
+        elif spec.get("files") == "tiny":
+            fl = [(b"t0", 1500 + d, 60 + d, 100 + d), (b"t1", 700 + d, 70 + d, 0)]
         else:
             fl = small_files(ai, d, spec.get("nfiles", 3))
         base = os.fsencode(a.ddir(d))
@@ -152,7 +161,7 @@ def verify_independently(a, spec, cs):
                 cols.setdefault(pos, {})[col] = blk
     n_par = 0
     for l in range(np_):
-        sizes = [s["size"] for s in cs["parity"][l]["splits"]] if cs["parity"][l]["v"] == 'Q' else None
+        sizes = [s["size"] for s in cs["parity"][l]["splits"]] if l < len(cs["parity"]) and cs["parity"][l]["v"] == "Q" else None
         pdata = b""
         for s in range(a.conf.splits[l]):
             with open(a.pfile(l, s), "rb") as fh:
@@ -217,8 +226,22 @@ def make_array(ai, spec, binary, commit):
     for c in range(1, conf.copies):
         if open(a.cfile(c), "rb").read() != raw:
             raise SystemExit("content copies differ")
+    if spec.get("legacy"):
+        # the same state in the first content format; the reference must accept it and see the same array
+        before = a.run("list", now=now + 40 * 86400)
+        raw = content.encode(content.decode(raw), legacy=True)
+        for c in range(conf.copies):
+            with open(a.cfile(c), "wb") as f:
+                f.write(raw)
+        after = must(a.run("list", now=now + 40 * 86400), name + " list of the transcoded content")
+        if sorted(t for t in before.tags if t[0] in ("file", "link_symlink", "link_hardlink")) != \
+                sorted(t for t in after.tags if t[0] in ("file", "link_symlink", "link_hardlink")):
+            raise SystemExit("%s: the reference lists another state from the transcoded content" % name)
+        must(a.run("check", *(["-a"] if spec.get("interrupted") else []), now=now + 40 * 86400), name + " check of the transcoded content")
+        steps.append("content transcoded to the first format (SNAPCNT1: 'm' mapping records, no parity records, 'n' runs for new "
+                     "blocks in never used positions); list and check of the reference agree")
     cs = content.decode(raw)
-    want_ver = 3 if (spec["hs"] != 16 or spec.get("splits")) else 2
+    want_ver = 1 if spec.get("legacy") else 3 if (spec["hs"] != 16 or spec.get("splits")) else 2
     if cs["version"] != want_ver:
         raise SystemExit("%s: unexpected content version %d" % (name, cs["version"]))
     if spec.get("rehash"):
@@ -229,11 +252,32 @@ def make_array(ai, spec, binary, commit):
     if spec.get("splits"):
         for l, p in enumerate(cs["parity"]):
             used = [s["size"] for s in p["splits"]]
-            if sum(1 for u in used if u) != spec["splits"][l]:
+            if spec.get("gap"):
+                if not (used[0] and not used[1] and any(used[2:])):
+                    raise SystemExit("%s: no empty split in front of a used one in level %d: %r" % (name, l, used))
+            elif sum(1 for u in used if u) != spec["splits"][l]:
                 raise SystemExit("%s: data does not cross the splits of level %d: %r" % (name, l, used))
     n_hash, n_par = verify_independently(a, spec, cs)
-    reenc = content.encode(cs)
+    reenc = content.encode(cs, legacy=bool(spec.get("legacy")))
     enc_ok = reenc == raw
+    if spec.get("legacy") and spec.get("interrupted") and not any(st == "NEW" for d in cs["disks"].values() for f in d["files"] for (_, st, _) in f["blocks"]):
+        raise SystemExit("%s: no 'n' run in the transcoded content" % name)
+
+    # what the reference makes of the loss of each data disk of an array left with an unfinished sync (exit status, every
+    # file of every disk afterwards): the current code has to reach the same result from the same files
+    outcomes = {}
+    if spec.get("outcomes"):
+        for d in range(spec["nd"]):
+            c = a.clone()
+            try:
+                shutil.rmtree(c.ddir(d)); os.makedirs(c.ddir(d))
+                r = c.run("fix", *extra, now=now + 50 * 86400)
+                outcomes["d%d" % d] = {"rc": r.rc,
+                                      "data": {dn: gl.tree_manifest(os.fsencode(os.path.join(c.root, dn))) for dn in conf.disk_names}}
+            finally:
+                c.destroy()
+        if not any(o["rc"] == 0 for o in outcomes.values()):
+            raise SystemExit("%s: the reference repairs no single disk loss" % name)
 
     # clean helper files of the driver
     for junk in glob.glob(os.path.join(root, "log.*")) + glob.glob(os.path.join(root, "c*/content.lock")) \
@@ -260,6 +304,8 @@ def make_array(ai, spec, binary, commit):
         "rehash_flagged_stripes": sum(1 for e in cs["info"] if e and e["rehash"]),
         "interrupted": bool(spec.get("interrupted")),
     }
+    if outcomes:
+        man["fix_outcomes"] = outcomes
     os.makedirs(gl.ARRAYS, exist_ok=True)
     gl.pack(root, os.path.join(gl.ARRAYS, name + ".tar.gz"), tops)
     with open(os.path.join(gl.ARRAYS, name + ".json"), "w") as f:
@@ -289,7 +335,37 @@ def make_vectors():
     return len(D), len(R)
 
 
+def add_missing():
+    """--add: generate only the arrays of SPECS that the golden set does not hold yet (from a worktree at the reference commit
+    recorded in INDEX.json); everything already vendored stays byte for byte as it is"""
+    idx_path = os.path.join(gl.GOLDEN, "INDEX.json")
+    idx = json.load(open(idx_path))
+    commit = subprocess.run(["git", "-C", vlib.REPO, "rev-parse", "HEAD"], stdout=subprocess.PIPE, text=True).stdout.strip()
+    if commit != idx["reference_commit"]:
+        raise SystemExit("the tree at %s is at %s, the golden set was written by %s" % (vlib.REPO, commit, idx["reference_commit"]))
+    dirty = subprocess.run(["git", "-C", vlib.REPO, "status", "--porcelain", "--untracked-files=no"],
+                           stdout=subprocess.PIPE, text=True).stdout.strip()
+    if dirty:
+        raise SystemExit("reference tree has local modifications:\n" + dirty)
+    binary = vlib.build("hooks")
+    os.makedirs(GEN_ROOT, exist_ok=True)
+    try:
+        mans = [make_array(ai, spec, binary, commit) for ai, spec in enumerate(SPECS) if spec["name"] not in idx["arrays"]]
+    finally:
+        shutil.rmtree(GEN_ROOT, ignore_errors=True)
+    for m in mans:
+        idx["arrays"].append(m["name"])
+        idx["array_sha256"][m["name"]] = sh256(os.path.join(gl.ARRAYS, m["name"] + ".tar.gz"))
+    with open(idx_path, "w") as f:
+        json.dump(idx, f, indent=1, sort_keys=True)
+    print("golden set extended by %d arrays: %s" % (len(mans), [m["name"] for m in mans]))
+
+
 def main():
+    if "--add" in sys.argv:
+        if vlib.REPO == "/repo" or not os.environ.get("GOLDEN_REFERENCE_WORKTREE"):
+            raise SystemExit("--add needs a worktree of /repo at the reference commit: GOLDEN_REFERENCE_WORKTREE=1 REPO=<worktree>")
+        return add_missing()
     force = "--force" in sys.argv
     if os.path.exists(gl.GOLDEN) and os.listdir(gl.GOLDEN) and not force:
         raise SystemExit("golden set exists; it records the reference version and must not be regenerated "
